@@ -3,6 +3,7 @@ CONSTANTS
   Peers = {}
   Honest = {}
   ValsAt <- TraceVals
+  NilAt <- TraceNilAt
   LieKinds = {}
   LiarStatus = {}
   MaxLies = 0
@@ -13,6 +14,7 @@ CONSTANTS
   Weak_SaveBeforeValidate = FALSE
   Weak_NoRedo = FALSE
   Weak_SeenCommitUnchecked = FALSE
+  Weak_NilSlotAddressUnchecked = FALSE
   Weak_StaleMaxPeerHeight = FALSE
   Weak_NoBlockValidation = FALSE
   Weak_PartSetNotCompared = FALSE
